@@ -95,7 +95,15 @@ func val(kind string, variant, i int) int64 {
 // AssignCorpus returns a satisfying assignment. The public outputs are computed here with big.Int
 // over the given modulus, mirroring what Define constrains.
 func AssignCorpus(kind string, variant int, mod *big.Int) *Corpus {
+	return AssignCorpusN(kind, variant, mod, 0)
+}
+
+// AssignCorpusN is AssignCorpus for a circuit scaled to n (only "wide" uses it; 0 = default).
+func AssignCorpusN(kind string, variant int, mod *big.Int, n int) *Corpus {
 	c := NewCorpus(kind)
+	if n > 0 {
+		c.N = n
+	}
 	s := make([]*big.Int, len(c.S))
 	for i := range c.S {
 		s[i] = big.NewInt(val(kind, variant, i))
